@@ -19,11 +19,14 @@ Gaps == {"now", "soon"}
 Init == armed = "none" /\ nfires = 0 /\ ops = <<>>
 Op(o, d, g) == [op |-> o, dur |-> d, gap |-> g, fires |-> nfires']
 Arm(d, g) == /\ armed' = d /\ nfires' = nfires /\ ops' = Append(ops, Op("Arm", d, g))
+\* two goroutines arm at the same time (a short and a long timer): whichever is published last is the armed one
+ArmPar(g) == /\ armed' = "par" /\ nfires' = nfires /\ ops' = Append(ops, Op("ArmPar", "par", g))
 Stop(g)   == /\ armed' = "none" /\ nfires' = nfires /\ ops' = Append(ops, Op("Stop", "", g))
-Expire    == /\ armed \in Durs /\ armed' = "auto" /\ nfires' = nfires + 1 /\ ops' = Append(ops, Op("Expire", armed, ""))
+Expire    == /\ armed \in Durs \cup {"par"} /\ armed' = "auto" /\ nfires' = nfires + 1 /\ ops' = Append(ops, Op("Expire", armed, ""))
 Next == /\ Len(ops) < MaxOps
         /\ \/ \E d \in Durs, g \in Gaps : Arm(d, g)
            \/ \E g \in Gaps : Stop(g)
+           \/ \E g \in Gaps : ArmPar(g)
            \/ Expire
 Spec == Init /\ [][Next]_vars
 Emit == Len(ops') < MaxOps \/ PrintT(<<"TEST", ToJson(ops')>>)
